@@ -549,6 +549,12 @@ class Interp:
                 return lo
             if f.id == 'str' and len(e.args) == 1:
                 return self.as_str(self.ev(e.args[0], env), e)
+            if f.id == 'int' and len(e.args) == 1 and not e.keywords:
+                v = self.resolve(self.ev(e.args[0], env))
+                if isinstance(v, Slot):
+                    # the number read from a text slot, written back in canonical decimal form: another text than the slot's
+                    # (no leading zeros, sign or blanks) -- a slot of its own, whose language the consumer supplies
+                    return Slot('int(%s)' % v.path)
             if f.id in ('list', 'tuple', 'sorted', 'iter') and len(e.args) == 1 and not e.keywords:
                 v = self.ev(e.args[0], env)
                 if isinstance(v, ListOf) and f.id != 'sorted':
